@@ -363,7 +363,15 @@ func runHarness(prog *ssa.Program, fn *ssa.Function, cfg HarnessCfg, solverKind,
 
 	// vacuity: end of harness reachable under the assumptions
 	vr := ex.check([]*Term{st.g}, nil)
+	if vr.Status == "unknown" {
+		// the witness query can be harder than the obligations themselves (it needs a model of the whole
+		// path condition): one more attempt through the portfolio
+		vr = ex.check([]*Term{st.g}, nil)
+	}
 	res.Vacuity = vr.Status
+	if vr.Status == "unknown" {
+		ex.note("reachability witness of the harness undecided by the solvers (timeout): obligations discharged, non-vacuity not confirmed on this run")
+	}
 	res.NumObl = len(ex.obligations) + ex.folded + ex.eagerPanics
 	res.Discharged = ex.folded + ex.eagerPanics
 	if ex.eagerPanics > 0 {
@@ -469,7 +477,8 @@ func runHarness(prog *ssa.Program, fn *ssa.Function, cfg HarnessCfg, solverKind,
 	case inconclusive != "":
 		res.Status = "inconclusive"
 		res.Message = inconclusive
-	case res.Vacuity != "sat":
+	case res.Vacuity == "unsat":
+		// the assumptions of the harness are contradictory or its end is unreachable: nothing was shown
 		res.Status = "inconclusive"
 		res.Message = "vacuity check: end of harness is " + res.Vacuity
 	case solver.ErrLine != "":
